@@ -218,22 +218,26 @@ pub fn run(ctx: &mut Ctx) {
     ctx.assume("simplify iterates over a HashSet: each symbol is evaluated twice in the same process and a difference counts as a violation of invariance");
     crate::props::run_regressions(ctx, "C17");
     ctx.layer("exhaustive");
-    let (pool, pool_text) = symbol_pool(t.pick(3, 5), t.pick(4, 6), t.pick(8, 25));
+    let (pool, pool_text) = symbol_pool(t.pick(4, 5), t.pick(5, 6), t.pick(40, 25));
     let mut cases: Vec<TorCase> = vec![];
     for (k, s) in pool.into_iter().enumerate() {
         cases.push(TorCase { swaps: vec![((k as u32).wrapping_mul(0x9e37_79b9), (k as u32 + 7).wrapping_mul(0x85eb_ca6b))], dual: k % 2 == 1, ds: s, known: String::new(), kind: String::new() });
     }
     cases.extend(corpus_cases(t.pick(4, 6)));
-    let (ncub, nman) = (t.pick(150, 3000), t.pick(2, 8));
+    let (ncub, nman) = (t.pick(600, 6000), t.pick(3, 10));
     cases.extend(cubic_cases(ncub, t.pick(3, 4)));
     cases.extend(manifold_cases(nman, true));
     let n = cases.len();
     ctx.run_par(&SUB_VERDICT, cases.clone(), Some(&format!("{} cases: 3D symbols with spherical links and branching in {{1,2,3,4,6}}: {}; 20 literature symbols; products of all euclidean 2D symbols with <= {} chambers with the 4 line tilings; {} quotients of the cubic tiling and of triangular / square prism tilings by space groups (known euclidean); cubical 3-manifolds of known topology (T^3, T^3 # S^3: euclidean; S^2 x S^1, RP^3 and connected sums: not) with {} gluing choices", n, pool_text, t.pick(4, 6), ncub, nman)));
     ctx.layer("random-space-group-quotients");
     let max_n = t.pick(3, 4);
-    ctx.run_prop(&SUB_VERDICT, move || cubic_strategy(max_n), t.pick(300, 6_000));
+    ctx.run_prop(&SUB_VERDICT, move || cubic_strategy(max_n), t.pick(1_500, 20_000));
     ctx.layer("random");
-    let pool = Arc::new(cases.into_iter().filter(|c| !c.known.is_empty() || c.ds.size >= 2).collect::<Vec<_>>());
+    // renumberings are spent on the cases that get past the invariant filter (selection only, not an oracle)
+    let pool = {
+        use rayon::prelude::*;
+        Arc::new(cases.into_par_iter().filter(|c| !c.known.is_empty() || !matches!(guarded(|| verdict(&c.ds, false)), Ok(Verdict::No(m)) if m == "orbifold invariants do not match")).collect::<Vec<_>>())
+    };
     ctx.run_prop(
         &SUB_VERDICT,
         move || {
